@@ -36,7 +36,7 @@ CLAIMED = {
  "C05": dict(
    level="model_checking", design="§3 C05",
    technique="exhaustive enumeration of layer arrangements x stack shapes on the real engine, each checked with a complete scan/seek/range/filter suite against a sorted-map model",
-   text="Every assignment {absent,value,tombstone} of keys x layers (729+729 quick, 19683 thorough) is built oldest-first in 7 layer-stack shapes (memtable, immutables, SSTables, after reopen, SSTables only with retired logs) on the real engine; on each the full scan, Seek to 7 targets + iteration, SeekToLast, all ranges over those bounds (SeekToFirst/Seek/SeekToLast), prefix/suffix filters, and the same inside read-write transactions with 5 overlays and a read-only transaction must equal the model. Physical shapes (17/33/40/120 keys, 3-block tables) are scanned purely from SSTables with seeks to every key and gap.",
+   text="Every assignment {absent,value,tombstone} of keys x layers (729+729 quick, 19683 thorough) is built oldest-first in 7 layer-stack shapes (memtable, immutables, SSTables, after reopen, SSTables only with retired logs) on the real engine; on each the full scan, Seek to 7 targets + iteration, SeekToLast, all ranges over those bounds (SeekToFirst/Seek/SeekToLast), prefix/suffix filters, and the same inside read-write transactions with 5 overlays and a read-only transaction must equal the model. Physical shapes (17/33/40/120 keys, 3-block tables) are scanned purely from SSTables with seeks to every key and gap. Concurrent scans (full, and range scans starting at a key inserted meanwhile) against writers, flush and compaction are explored over all interleavings up to 2 (1 for maintenance) deviations.",
    note="Layer boundaries forced through an export hook that calls the engine's own scheduleFlush; concurrent-scan clause is covered by C18's iterator scenarios and the C06 harness family."),
  "C08": dict(
    level="model_checking", design="§3 C08",
